@@ -1272,7 +1272,13 @@ def audit(out: OutputBuffer, aconf: AuditConf, sshv: Optional[int] = None, print
         out.fail(err)
         return exitcodes.CONNECTION_ERROR
     if sshv == 1:
-        program_retval = output(out, aconf, banner, header, pkm=SSH1_PublicKeyMessage.parse(payload), print_target=print_target)
+        try:
+            pkm = SSH1_PublicKeyMessage.parse(payload)
+        except Exception:
+            out.fail("Failed to parse server's public key message.  Stack trace:\n%s" % str(traceback.format_exc()))
+            return exitcodes.CONNECTION_ERROR
+
+        program_retval = output(out, aconf, banner, header, pkm=pkm, print_target=print_target)
     elif sshv == 2:
         try:
             kex = SSH2_Kex.parse(out, payload)
